@@ -235,6 +235,8 @@ NUMS = ["1", "0", "0.5", "1.25", "-0.271637", "2.01551", "0.0205762", "3.01374",
 def two_body(rng, name, tag=True):
     a, b = PAIRS[name]
     ls = rng.choice(LS_TAGS[name]) if (tag and name in LS_TAGS) else None
+    if tag and ls is None and name in RES_V and rng.random() < 0.12:
+        ls = "GSpline.EFF"      # a spline line shape on a neutral two-body resonance (its name ends in 0)
     return ["D", name, None, ls, [["D", a, None, None, []], ["D", b, None, None, []]]]
 
 
@@ -318,7 +320,7 @@ def gen_amp_doc(rng: random.Random, n_lines=None, partial=True, cartesian=None, 
     return head + rest, ev
 
 
-def gen_emit_doc(rng, families=True):
+def gen_emit_doc(rng, families=True, unsupported=False):
     """amplitudes over the supported spin structures, both topologies, four lineshape kinds, identical resonances"""
     ev = ["D0"] + (["K-", "pi+", "pi+", "pi-"] if rng.random() < 0.5 else rng.choice([["pi+", "pi-", "pi+", "pi-"], ["pi+", "pi+", "pi-", "pi-"], ["pi-", "K-", "pi+", "pi+"], ["K+", "K-", "pi+", "pi-"]]))
     kpi = "K-" in ev and "K+" not in ev
@@ -359,6 +361,9 @@ def gen_emit_doc(rng, families=True):
             wave = rng.choice([None, "D"]) if kind == "AVP" else None
             ls3 = rng.choice([None, "GSpline.EFF"]) if r3 in ("K(1)(1270)bar-", "a(1)(1260)+", "K(1460)bar-") else None
             inner = ["D", r3, wave, ls3, [two_body(rng, r2), ["D", b3, None, None, []]]]
+            if unsupported and rng.random() < 0.12:
+                # the bachelor written before the sub-resonance: not one of the supported spin structures (both back ends refuse it)
+                inner[4].reverse()
             # the orbital momentum of the top decay written out (it decides the form factor, not the name of the spin structure)
             top = rng.choice([None, None, None, "P", "D", "S"])
             lines.append(["line", ["D", "D0", top, None, [inner, ["D", b4, None, None, []]]]] + coupling(rng))
